@@ -1212,6 +1212,7 @@ def _terminal(sts):
 
 
 VOID_FN_MODE = [False]
+RETMAP = [None]          # for functions returning a value: C constant name / literal -> Lean term
 
 
 def _check_ret(st):
@@ -1451,6 +1452,8 @@ def _x(n, env):
                 return "cmd.name.length", "nat"
         if fn == "get_atcmd_buf_size" and _is_self_call(e, "get_atcmd_buf_size"):
             return "D.cmdCap", "nat"
+        if fn == "get_unsolicited_buf_size" and _is_self_call(e, "get_unsolicited_buf_size"):
+            return "D.unsCap", "nat"
         if fn == "strlen" and _is_self_call(e["inner"][1], "get_atcmd_buf"):
             return "strlenOf (region D s .cmd 0)", "nat"
         if fn == "is_variables_access_possible" and strip(e["inner"][2]).get("referencedDecl", {}).get("name") == "cmd":
@@ -1468,9 +1471,11 @@ def _x(n, env):
             env.pre.append("let (s, %s) := getCmdState D s s.index" % t)
             return t, "nat"
         raise Unrecognised("T11: call of %s" % fn)
-    if k == "UnaryOperator" and e.get("opcode") == "++" and not e.get("isPostfix") and _member_path(e["inner"][0]) == "index":
-        env.pre.append("let s : St := { s with index := s.index + 1 }")
-        return "s.index", "nat"
+    if k == "UnaryOperator" and e.get("opcode") == "++" and not e.get("isPostfix") and _member_path(e["inner"][0]) in FIELD \
+            and FIELD[_member_path(e["inner"][0])][1] == "nat":
+        fld = FIELD[_member_path(e["inner"][0])][0]
+        env.pre.append("let s : St := { s with %s := s.%s + 1 }" % (fld, fld))
+        return "s." + fld, "nat"
     if k == "BinaryOperator":
         op = e["opcode"]
         if op in ("+", "-"):
@@ -1480,11 +1485,13 @@ def _x(n, env):
         lm = strip(e["inner"][0])
         lb = strip(lm["inner"][0]) if lm.get("kind") == "MemberExpr" and lm.get("inner") else {}
         if op in ("==", "!=") and lm.get("kind") == "MemberExpr" and lb.get("kind") == "DeclRefExpr" and \
-                lb.get("referencedDecl", {}).get("name") == "cmd" and (lm.get("name") in CMDPTR or lm.get("name") == "var"):
+                lb.get("referencedDecl", {}).get("name") == "cmd" and (lm.get("name") in CMDPTR or lm.get("name") in ("var", "description")):
             if _rhs(e["inner"][1], "ptr", [], {}) != "none":
                 raise Unrecognised("T12: pointer compared with something other than NULL")
             if lm["name"] == "var":
                 return ("cmd.vars.isNone" if op == "==" else "cmd.vars.isSome"), "bool"
+            if lm["name"] == "description":
+                return ("cmd.desc.isNone" if op == "==" else "cmd.desc.isSome"), "bool"
             return ("!cmd.%s" if op == "==" else "cmd.%s") % CMDPTR[lm["name"]], "bool"
         if op in ("==", "!=") and lm.get("kind") == "CallExpr":
             fn = strip(lm["inner"][0]).get("referencedDecl", {}).get("name")
@@ -1494,7 +1501,11 @@ def _x(n, env):
                 if fn == "print_string_to_buf":
                     a = strip(lm["inner"][2])
                     ab = strip(a["inner"][0]) if a.get("kind") == "MemberExpr" else {}
-                    if a.get("kind") == "StringLiteral":
+                    if _is_self_call(a, "get_new_line_chars"):
+                        txt = "(nlStr s)"
+                    elif a.get("name") == "description" and ab.get("kind") == "DeclRefExpr" and ab["referencedDecl"]["name"] == "cmd":
+                        txt = "(cmd.desc.getD [])"
+                    elif a.get("kind") == "StringLiteral":
                         txt = "[%s]" % ", ".join(str(b) for b in json.loads(a["value"]).encode())
                     elif a.get("name") == "name" and ab.get("kind") == "DeclRefExpr" and ab["referencedDecl"]["name"] == "cmd":
                         txt = "cmd.name"
@@ -1545,6 +1556,14 @@ def _cps(sts, k, ind):
     st, rest = sts[0], sts[1:]
     kind = st.get("kind")
     e = strip(st)
+    if kind == "ReturnStmt" and RETMAP[0] is not None:
+        r = strip(st["inner"][0])
+        key = r.get("referencedDecl", {}).get("name")
+        if key is None:
+            key = str(const_value(r, {}))
+        if key not in RETMAP[0]:
+            raise Unrecognised("T16: return of %s" % key)
+        return "(s, %s)" % RETMAP[0][key]
     if kind == "ReturnStmt":
         _check_ret(st)
         return "s"
@@ -1623,6 +1642,16 @@ def _cps(sts, k, ind):
             env = _Env()
             v, _ = _x(rhs, env)
             return "(let cmd_name_len := %s;\n%s%s)" % (v, ind, _cps(rest, k, ind))
+        if lhs.get("kind") == "ArraySubscriptExpr" and (_is_self_call(lhs["inner"][0], "get_atcmd_buf") or _is_self_call(lhs["inner"][0], "get_unsolicited_buf")):
+            fsm_ = ".cmd" if _is_self_call(lhs["inner"][0], "get_atcmd_buf") else ".uns"
+            i = strip(lhs["inner"][1])
+            want = "position" if fsm_ == ".cmd" else "unsolicited_fsm.position"
+            if i.get("kind") == "UnaryOperator" and i.get("opcode") == "++" and i.get("isPostfix") and _member_path(i["inner"][0]) == want:
+                env = _Env()
+                v, _ = _x(rhs, env)
+                fld = FIELD[want][0]
+                return "(let s : St := setB D s %s s.%s %s;\n%slet s : St := { s with %s := s.%s + 1 };\n%s%s)" % (
+                    fsm_, fld, v, ind, fld, fld, ind, _cps(rest, k, ind))
         if lhs.get("kind") == "ArraySubscriptExpr" and _is_self_call(lhs["inner"][0], "get_atcmd_buf"):
             # get_atcmd_buf(self)[self->length++] = x   /   get_atcmd_buf(self)[self->length] = 0
             i = strip(lhs["inner"][1])
@@ -1663,6 +1692,11 @@ def _cps(sts, k, ind):
                 raise Unrecognised("T11: set_cmd_state with a non-constant state")
             return "(let s : St := setCmdState D s s.index %s;\n%s%s)" % (v["value"], ind, _cps(rest, k, ind))
         args = [strip(a).get("referencedDecl", {}).get("name") for a in e["inner"][1:]]
+        if fn in ("start_flush_io_buffer", "unsolicited_start_flush_io_buffer", "start_flush_io_buffer_raw") and len(args) == 2 and \
+                args[0] == "self" and args[1] in AFTER_CONST:
+            term = {"start_flush_io_buffer": "startFlush s .cmd %s", "unsolicited_start_flush_io_buffer": "startFlush s .uns %s",
+                    "start_flush_io_buffer_raw": "startFlushRaw s %s"}[fn] % AFTER_CONST[args[1]]
+            return "(let s : St := %s;\n%s%s)" % (term, ind, _cps(rest, k, ind))
         if fn in FSM_CALL and args == ["self", "fsm"]:
             return "(let s : St := %s;\n%s%s)" % (FSM_CALL[fn], ind, _cps(rest, k, ind))
         if fn in STEP_CALL and "{f}" not in STEP_CALL[fn]:
@@ -2079,6 +2113,39 @@ def t15(ast):
     return out
 
 
+# ------------------------------------------------------------------------------------ T16
+# machine-parameterised helpers that return a value: `print_response_test` (0 / -1) and
+# `next_format_var_by_fsm` (BUSY / OK); the model's versions return "succeeded" / "returned BUSY".
+
+AFTER_CONST = {"CAT_STATE_AFTER_FLUSH_RESET": ".reset", "CAT_STATE_AFTER_FLUSH_OK": ".ok",
+               "CAT_STATE_AFTER_FLUSH_FORMAT_READ_ARGS": ".fmtRead", "CAT_STATE_AFTER_FLUSH_FORMAT_TEST_ARGS": ".fmtTest",
+               "CAT_STATE_PRINT_CMD": ".printCmd",
+               "CAT_UNSOLICITED_STATE_AFTER_FLUSH_RESET": ".reset", "CAT_UNSOLICITED_STATE_AFTER_FLUSH_OK": ".ok",
+               "CAT_UNSOLICITED_STATE_AFTER_FLUSH_FORMAT_READ_ARGS": ".fmtRead",
+               "CAT_UNSOLICITED_STATE_AFTER_FLUSH_FORMAT_TEST_ARGS": ".fmtTest"}
+
+
+def t16(ast):
+    defs = []
+    try:
+        RETMAP[0] = {"0": "true", "-1": "false"}
+        _, body = find_fn(ast, "print_response_test")
+        sts = [x for x in body.get("inner", []) if not is_noise(x)]
+        defs.append("/-- `print_response_test` of src/cat.c; the Bool is \"returned 0\" -/\n"
+                    "def print_response_test (D : Desc) (s : St) (f : Fsm) : St × Bool :=\n  %s" % _cps(sts, "(s, true)", "    "))
+    finally:
+        RETMAP[0] = None
+    try:
+        RETMAP[0] = {"CAT_STATUS_BUSY": "true", "CAT_STATUS_OK": "false"}
+        _, body = find_fn(ast, "next_format_var_by_fsm")
+        sts = [x for x in body.get("inner", []) if not is_noise(x)]
+        defs.append("/-- `next_format_var_by_fsm` of src/cat.c; the Bool is \"returned BUSY\" -/\n"
+                    "def next_format_var_by_fsm (D : Desc) (s : St) (f : Fsm) : St × Bool :=\n  %s" % _cps(sts, "(s, false)", "    "))
+    finally:
+        RETMAP[0] = None
+    return defs
+
+
 def t9(ast):
     defs = []
     for name in STEPS:
@@ -2096,7 +2163,8 @@ def t9(ast):
     defs += t13(ast)
     defs += t14(ast)
     defs += t15(ast)
-    hdr = ("/-\n  GENERATED by tools/translate.py from small step functions of src/cat.c (T9 - T15). Do not edit.\n"
+    defs += t16(ast)
+    hdr = ("/-\n  GENERATED by tools/translate.py from small step functions of src/cat.c (T9 - T16). Do not edit.\n"
            "  `Proofs/Steps.lean` proves the model's functions equal to these.\n-/\n"
            "import CatVerif.Model.Fsm\nnamespace Cat.Gen\nopen Cat St\nset_option linter.unusedVariables false\n\n")
     return hdr + "\n\n".join(defs) + "\n\nend Cat.Gen\n"
